@@ -72,6 +72,7 @@ impl Checker {
                 };
                 let mut call_key = call.clone();
                 call_key.feed_prev = false;
+                call_key.via_clone = false; // the reference is always a fresh formatter in a fresh process
                 let call = &call_key;
                 let (ra, rb) = self.reference(call, text)?;
                 if ra != rb {
